@@ -98,13 +98,14 @@ def _run(cmd: list[str], cwd: Path, timeout: int = 1800) -> subprocess.Completed
     return subprocess.run(cmd, cwd=cwd, capture_output=True, text=True, timeout=timeout, env=env)
 
 
-def build_lean() -> float:
-    """`lake build` (library with all proofs + native driver). Serialised by a lock."""
+def build_lean(prop: str) -> float:
+    """`lake build` of this property's theorem module (with everything it imports) and of the
+    native driver. Serialised by a lock. (`setup_cmd` builds the whole library.)"""
     t0 = time.time()
     LEAN.joinpath(".lake").mkdir(exist_ok=True)
     with open(LEAN / ".lake" / "verif.lock", "w") as lock:
         fcntl.flock(lock, fcntl.LOCK_EX)
-        r = _run(["lake", "build"], LEAN)
+        r = _run(["lake", "build", f"GEVerif.Props.{prop}", "driver"], LEAN)
         if r.returncode != 0 or not DRIVER.exists():
             raise InfraError("lake build failed:\n" + (r.stdout + r.stderr)[-4000:])
     return time.time() - t0
@@ -391,7 +392,7 @@ def run_check(prop: str, tier: str, seed: int, module) -> int:
     evfile = EVIDENCE / f"{prop}.json"
     h = Harness(prop, tier, seed)
     try:
-        build_s = build_lean()
+        build_s = build_lean(prop)
         au = audit(prop)
         module.run(h)
         h.flush()
